@@ -365,7 +365,8 @@ VOCAB = {
     'track::utils::FromVec::from_vec', 'track::store::TrackStore::shard_stats',
     'track::store::track_distance::TrackDistanceOk::all', 'track::store::track_distance::TrackDistanceErr::all',
     'rand::Rng::gen', 'rand::Rng::r#gen', 'std::iter::Extend::extend', 'std::vec::Vec::extend_from_slice',
-    'std::vec::Vec::append', 'std::vec::Vec::clear', 'std::vec::Vec::reserve',
+    'std::vec::Vec::append', 'std::vec::Vec::clear',
+    # capacity management (reserve / with_capacity / shrink_to_fit) is not behaviour: not in the vocabulary
 }
 # semantic differences that are part of the design of the batch variant (explicit difference table)
 DIFF_ALLOWED = {
@@ -373,6 +374,11 @@ DIFF_ALLOWED = {
     ('track::store::track_distance::TrackDistanceOk::all', ()): 'batch passes dists.into_iter() to the voting thread',
     # ids: gen_track_id (simple) vs shared counter (batch) are not in the vocabulary
 }
+
+
+COUNTED = {'trackers::epoch_db::EpochDb::next_epoch', 'track::store::TrackStore::foreign_track_distances',
+           'track::voting::Voting::winners', 'trackers::sort::voting::SortVoting::new',
+           'trackers::visual_sort::voting::VisualVoting::new'}
 
 
 def op_multiset(F, bodies):
@@ -410,7 +416,11 @@ def sibling(ctx, R, pairs=(('Sort', 'BatchSort'), ('VisualSort', 'BatchVisualSor
         ms, mb = op_multiset(F, simple), op_multiset(F, batch)
         diff = {}
         for k in set(ms) | set(mb):
-            if ms.get(k, 0) != mb.get(k, 0) and k not in DIFF_ALLOWED:
+            if k in DIFF_ALLOWED:
+                continue
+            # presence matters for every operation; multiplicity only for the once-per-call steps (a branch written
+            # twice or merged into one arm is the same pipeline)
+            if (ms.get(k, 0) > 0) != (mb.get(k, 0) > 0) or (k[0] in COUNTED and ms.get(k, 0) != mb.get(k, 0)):
                 diff[k] = (ms.get(k, 0), mb.get(k, 0))
         n += 1
         ctx.check(not diff, R, bv, '%s<->%s:same-operations-and-constants' % (s_name, b_name),
